@@ -11,8 +11,8 @@ package mon
 //     values compiled in-package by the generated table, never guessed) is within it. Sites declared "-", sites without a
 //     declaration and sites whose bound cannot be resolved from the package are counted as unchecked;
 //   * the generated decoder REJECTS a collection one element over its declared allocbound (probe, per declared site);
-//   * bytes allocated by one decode (runtime.MemStats.TotalAlloc delta) <= 65536*(len(input)+MaxSize(type)) + 1 MiB, for
-//     types whose generated MaxSize exists and does not panic; the constant is 16x the largest in-memory/encoded expansion
+//   * bytes allocated by one decode (runtime.MemStats.TotalAlloc delta) <= 1024*(len(input)+MaxSize(type)) + 1 MiB, for
+//     types whose generated MaxSize exists and does not panic; the constant is ~38x the largest ratio observed on the unchanged tree (27 B per byte of input+MaxSize)
 //     of any element type -- the monitor exists to catch a length prefix honoured before it is checked.
 // Trailing bytes after a complete object are accepted by design (go-codec compatibility) and are not a finding.
 
@@ -38,7 +38,7 @@ import (
 )
 
 const (
-	verifMsgpAllocFactor = 65536
+	verifMsgpAllocFactor = 1024
 	verifMsgpAllocSlack  = 1 << 20
 )
 
@@ -48,11 +48,12 @@ const (
 type verifMsgpWalk struct {
 	ix        *verifMsgpIndex
 	checked   int
-	unbounded int // declared "-"
-	undecl    int // no declaration visible from this package (incl. foreign types)
-	unres     int // declared, expression not resolvable in-package
-	viol      []string
-	secondary []string // declared bounds that msgp uses for MaxSize only (map key/value bounds, maxtotalbytes)
+	unbounded int         // declared "-"
+	undecl    int         // no declaration visible from this package (incl. foreign types)
+	unres     int         // declared, expression not resolvable in-package
+	viol      [][2]string // (site, description)
+	secondary [][3]string // (class, site, description): declared bounds that msgp uses for MaxSize only (map key/value bounds, maxtotalbytes)
+	pkg       string
 	nodes     int
 }
 
@@ -69,7 +70,7 @@ func (w *verifMsgpWalk) lenCheck(n int, bounds []int64, what, src string) {
 	default:
 		w.checked++
 		if int64(n) > b {
-			w.viol = append(w.viol, fmt.Sprintf("%s has %d elements, declared allocbound %d (%s)", what, n, b, src))
+			w.viol = append(w.viol, [2]string{w.pkg + "." + src, fmt.Sprintf("%s has %d elements, declared allocbound %d (%s)", what, n, b, src)})
 		}
 	}
 }
@@ -100,7 +101,7 @@ func (w *verifMsgpWalk) walk(v reflect.Value, st reflect.Type, f *reflect.Struct
 				tot += v.Index(i).Len()
 			}
 			if int64(tot) > maxTotal {
-				w.secondary = append(w.secondary, fmt.Sprintf("%s holds %d bytes in total, declared maxtotalbytes %d", path, tot, maxTotal))
+				w.secondary = append(w.secondary, [3]string{"declared-maxtotalbytes-not-enforced-by-decoder", w.pkg + "." + src, fmt.Sprintf("%s holds %d bytes in total, declared maxtotalbytes %d", path, tot, maxTotal)})
 			}
 		}
 		for i := 0; i < v.Len(); i++ {
@@ -119,7 +120,7 @@ func (w *verifMsgpWalk) walk(v reflect.Value, st reflect.Type, f *reflect.Struct
 		it := v.MapRange()
 		for it.Next() {
 			if len(bounds) > 1 && bounds[1] >= 0 && (it.Key().Kind() == reflect.String) && int64(it.Key().Len()) > bounds[1] {
-				w.secondary = append(w.secondary, fmt.Sprintf("%s has a key of %d bytes, declared key bound %d", path, it.Key().Len(), bounds[1]))
+				w.secondary = append(w.secondary, [3]string{"declared-map-key-bound-not-enforced-by-decoder", w.pkg + "." + src, fmt.Sprintf("%s has a key of %d bytes, declared key bound %d", path, it.Key().Len(), bounds[1])})
 			}
 			w.walk(it.Key(), nil, nil, nil, path+"{key}", depth+1)
 			w.walk(it.Value(), nil, nil, nil, path+"{}", depth+1)
@@ -309,11 +310,13 @@ type verifMsgpChildResult struct {
 }
 
 func verifMsgpCases(tier, lane string) int {
+	// cases per type; 16 mutation classes. Hostile headers on types with large declared bounds (Payset: 100000 elements)
+	// legitimately cost ~150 MB of zeroed memory per decode, which is what bounds these counts.
 	n := 640
 	if tier == "thorough" {
-		n = 20000
+		n = 6400
 		if lane != "plain" {
-			n = 2000
+			n = 640
 		}
 	} else if lane != "plain" {
 		n = 320
@@ -362,9 +365,6 @@ func RunC41Child(t *testing.T, cd *Codec) {
 	for pi, p := range msgpmon.Packages() {
 		for ti := range p.Types {
 			idx++
-			if idx%K != k {
-				continue
-			}
 			tc := verifMsgpMakeTypeCtx(p, pi, ti)
 			tname := p.Path + "." + tc.ty.Name
 			maxSize, haveMax, why := verifMsgpMaxSize(tc.ty)
@@ -376,8 +376,8 @@ func RunC41Child(t *testing.T, cd *Codec) {
 			}
 			pt := map[string]int64{}
 			res.PerType[tname] = pt
-			t0 := time.Now() // reporting only (which types dominate the run); never used in a verdict
-			for ci := 0; ci < n; ci++ {
+			t0 := time.Now()               // reporting only (which types dominate the run); never used in a verdict
+			for ci := k; ci < n; ci += K { // K is coprime with the number of mutation classes: every child sees every class
 				in := verifMsgpBuildInput(seed, cd, tc, ci)
 				// the witness must survive the death of this process: header line + input, before decoding
 				hdr := fmt.Sprintf("%s %d %d %s %d\n", tname, ti, ci, in.Class, len(in.Bytes))
@@ -420,7 +420,7 @@ func RunC41Child(t *testing.T, cd *Codec) {
 					count("decode_ok", 1)
 					count("ok_"+in.Class, 1)
 					pt["ok"]++
-					w := &verifMsgpWalk{ix: verifMsgpIndexOf(p)}
+					w := &verifMsgpWalk{ix: verifMsgpIndexOf(p), pkg: p.Path}
 					w.walk(reflect.ValueOf(obj).Elem(), nil, nil, nil, tc.ty.Name, 0)
 					count("bound_sites_checked", int64(w.checked))
 					count("bound_sites_declared_unbounded", int64(w.unbounded))
@@ -430,11 +430,11 @@ func RunC41Child(t *testing.T, cd *Codec) {
 						distinct[tname+"|"+in.Class+"|ok|"+verifMsgpShape(in.Bytes)] = true
 					}
 					for _, v := range w.viol {
-						viol("collection-exceeds-declared-allocbound", wit(map[string]any{"what": v}))
+						viol("collection-exceeds-declared-allocbound:"+v[0], wit(map[string]any{"what": v[1]}))
 					}
 					for _, v := range w.secondary {
 						count("secondary_bound_exceeded", 1)
-						viol("collection-exceeds-declared-size-bound(maxsize-only)", wit(map[string]any{"what": v}))
+						viol(v[0]+":"+v[1], wit(map[string]any{"what": v[2], "note": "msgp uses this declaration for MaxSize only; the generated UnmarshalMsg does not check it"}))
 					}
 				}
 				if len(distinct) < 200000 {
@@ -501,7 +501,7 @@ func RunC41(t *testing.T, cd *Codec) {
 		strings.Join(verifMsgpMutClasses, ", ") + " (length prefixes forced to 2^16-1 / 2^32-1 / 2^31.., headers swapped between array/map and str/bin, truncation at every offset of small messages, " +
 		"nesting up to 10^4 (2*10^6 once per recursive type, along the type's own recursive path), duplicated map entries, wrong types, random bytes), each decoded by protocol.Decode and by " +
 		"MsgpDecoderBytes.Decode in a child process; distinct = distinct (type, mutation class, accepted/rejected, token shape of accepted inputs)")
-	c.Assume("allocation bound 65536*(len(input)+MaxSize(type))+1MiB is a monitor against unchecked length prefixes, not a tight bound; bound values come from the package's own constants compiled into the generated table")
+	c.Assume("allocation bound 1024*(len(input)+MaxSize(type))+1MiB is a monitor against unchecked length prefixes, not a tight bound; bound values come from the package's own constants compiled into the generated table")
 	pkgs := msgpmon.Packages()
 	if len(pkgs) == 0 {
 		c.Harness("no package registered")
@@ -512,9 +512,9 @@ func RunC41(t *testing.T, cd *Codec) {
 	}
 	dir := c.Scratch("children")
 	defer os.RemoveAll(dir)
-	K := 8
+	K := 9
 	if c.Lane != "plain" {
-		K = 6
+		K = 7
 	}
 	type childOut struct {
 		err    error
@@ -578,7 +578,20 @@ func RunC41(t *testing.T, cd *Codec) {
 			unboundedDecl[n] = w
 		}
 		for n, m := range res.PerType {
-			perType[n] = m
+			if perType[n] == nil {
+				perType[n] = map[string]int64{}
+			}
+			for key, v := range m {
+				switch key {
+				case "alloc_max_input_len":
+				case "alloc_max":
+					if v > perType[n]["alloc_max"] {
+						perType[n]["alloc_max"], perType[n]["alloc_max_input_len"] = v, m["alloc_max_input_len"]
+					}
+				default:
+					perType[n][key] += v
+				}
+			}
 		}
 		recovered = append(recovered, res.Recovered...)
 		for _, v := range res.Violations {
@@ -756,7 +769,7 @@ func verifMsgpProbe(c *kit.Ctx, cd *Codec) {
 						c.Eval(1)
 						if err := cd.Decode(e, ty.New()); err == nil {
 							c.Count("probe_secondary_bound_accepted", 1)
-							c.Violation("declared-map-key-bound-not-enforced-by-decoder", map[string]any{"site": site, "declared": b.Src, "key_bound": bound, "key_len": bound + 1,
+							c.Violation("declared-map-key-bound-not-enforced-by-decoder:"+site, map[string]any{"site": site, "declared": b.Src, "key_bound": bound, "key_len": bound + 1,
 								"input_hex": verifMsgpHex(e), "note": "msgp uses the 2nd/3rd allocbound of a map for MaxSize only; the generated UnmarshalMsg does not check it"})
 						} else {
 							c.Count("probe_secondary_bound_rejected", 1)
@@ -807,7 +820,7 @@ func verifMsgpProbe(c *kit.Ctx, cd *Codec) {
 					over := n > bound
 					switch {
 					case over && err == nil:
-						c.Violation("allocbound-not-enforced-by-decoder", map[string]any{"site": site, "declared": b.Src, "level": level, "bound": bound, "elements": n,
+						c.Violation("allocbound-not-enforced-by-decoder:"+site, map[string]any{"site": site, "declared": b.Src, "level": level, "bound": bound, "elements": n,
 							"input_len": len(e), "input_hex": verifMsgpHex(e)})
 					case over && (strings.Contains(err.Error(), "msgp: length overflow") || strings.Contains(err.Error(), "msgp: wanted array of size")):
 						c.Count("probe_over_bound_rejected", 1)
@@ -820,7 +833,7 @@ func verifMsgpProbe(c *kit.Ctx, cd *Codec) {
 					default:
 						c.Count("probe_at_bound_rejected", 1)
 						if strings.Contains(err.Error(), "msgp: length overflow") || strings.Contains(err.Error(), "msgp: wanted array of size") {
-							c.Violation("decoder-rejects-collection-at-declared-bound", map[string]any{"site": site, "declared": b.Src, "bound": bound, "elements": n, "error": err.Error()})
+							c.Violation("decoder-rejects-collection-at-declared-bound:"+site, map[string]any{"site": site, "declared": b.Src, "bound": bound, "elements": n, "error": err.Error()})
 						}
 					}
 				}
@@ -852,7 +865,7 @@ func verifMsgpProbe(c *kit.Ctx, cd *Codec) {
 							c.Eval(1)
 							if err := cd.Decode(e, ty.New()); err == nil {
 								c.Count("probe_secondary_bound_accepted", 1)
-								c.Violation("declared-maxtotalbytes-not-enforced-by-decoder", map[string]any{"site": site, "declared": b.MaxTotalSrc, "maxtotalbytes": b.MaxTotal,
+								c.Violation("declared-maxtotalbytes-not-enforced-by-decoder:"+site, map[string]any{"site": site, "declared": b.MaxTotalSrc, "maxtotalbytes": b.MaxTotal,
 									"elements": cnt, "bytes_each": each, "input_len": len(e), "note": "msgp uses maxtotalbytes for MaxSize only; the generated UnmarshalMsg does not check it"})
 							} else {
 								c.Count("probe_secondary_bound_rejected", 1)
